@@ -171,7 +171,8 @@ Fixpoint recv_pkts (now : Z) (c : conn) (ps : list pkt) : conn :=
 
 (* receive_datagram(data, addr, now); idle0 = _idle_timeout() on entry *)
 Definition receive (now idle0 : Z) (ps : list pkt) (c : conn) : conn :=
-  if is_end (c_state c) then c else
+  (* `if self._state in END_STATES or self._close_pending: return` (fix 54d8ff0; before: END_STATES only) *)
+  if is_end (c_state c) then c else if c_close_pending c then c else
   let c := if is_none (c_close_at c) then set_close_at (Some (now + idle0)) c else c in
   recv_pkts now c ps.
 
